@@ -176,6 +176,9 @@ type EqIn struct {
 	// kind "alt": every group lists (template, context) pairs that must evaluate to the same string, each by
 	// the optimising and by the plain builder (eg. a constant written in a formula vs read from a group)
 	Alts [][]AltItem `json:"alts,omitempty"`
+	// kind "lib": after the sequential pass, this many goroutines evaluate the same compiled expressions on
+	// the contexts in rotated order; any result differing from the sequential one fails the case
+	Conc int `json:"conc,omitempty"`
 }
 
 type AltItem struct {
@@ -467,6 +470,35 @@ func runEqLib(e *EqIn) (groups [][]string) {
 	})
 	if p != "" {
 		return fail("eval: " + p)
+	}
+	if e.Conc > 1 && len(groups) == len(e.Ctxs) {
+		var bad int64
+		var wg sync.WaitGroup
+		for w := 0; w < e.Conc; w++ {
+			wg.Add(1)
+			go func(w int) {
+				defer wg.Done()
+				defer func() {
+					if r := recover(); r != nil {
+						atomic.AddInt64(&bad, 1)
+					}
+				}()
+				for round := 0; round < 20; round++ {
+					for j := range e.Ctxs {
+						i := (j + w) % len(e.Ctxs)
+						for b, k := range ks {
+							if a, _ := evalCount(k, e.Ctxs[i]); a != groups[i][b] {
+								atomic.AddInt64(&bad, 1)
+							}
+						}
+					}
+				}
+			}(w)
+		}
+		wg.Wait()
+		if bad > 0 {
+			groups = append(groups, []string{"\x01concurrent evaluation differs from sequential", ""})
+		}
 	}
 	return
 }
@@ -1114,6 +1146,109 @@ func (g *gen) constLoopCases() []Case {
 			cases = append(cases, mkEqCase(f, runEq(f), append(tags, "const-loop-in-function")))
 		}
 	}
+	return cases
+}
+
+
+// funcs-file functions called inside their own arguments (every argument position, depth 2 and 3): the
+// compiled body is one object shared by all call sites, so an inner call re-enters the stages the outer
+// call is in the middle of. Bodies use multi-argument helpers (format, tab, if, sumi, sumf, @map).
+// Call vs fully inlined body, optimising and plain builder, then from 4 goroutines. Equality-only.
+func (g *gen) selfNestedCases() []Case {
+	r := g.r
+	type fdef struct {
+		name  string
+		arity int
+		body  func(a []string) string
+	}
+	defs := []fdef{
+		{"pair", 2, func(a []string) string { return `{format "<%s|%s>" ` + a[0] + ` ` + a[1] + `}` }},
+		{"tri", 3, func(a []string) string { return `{format %s-%s-%s ` + a[0] + ` ` + a[1] + ` ` + a[2] + `}` }},
+		{"cc", 2, func(a []string) string { return `(` + a[0] + `{if ` + a[1] + ` ` + a[1] + ` none}{tab ` + a[0] + ` ` + a[1] + `})` }},
+		{"add", 2, func(a []string) string { return `{sumi ` + a[0] + ` ` + a[1] + ` 1}` }},
+		{"addf", 3, func(a []string) string { return `{sumf ` + a[0] + ` ` + a[1] + ` ` + a[2] + `}` }},
+		{"mp", 2, func(a []string) string { return `{@map {@ ` + a[0] + ` ` + a[1] + `} [{0}]}` }},
+		{"cond", 3, func(a []string) string { return `{if ` + a[0] + ` ` + a[1] + ` ` + a[2] + `}` }},
+	}
+	leaves := []string{"{0}", "{1}", "{2}", "k", "7"}
+	var cases []Case
+	for _, d := range defs {
+		params := make([]string, d.arity)
+		for i := range params {
+			params[i] = fmt.Sprintf("{%d}", i)
+		}
+		cont := false
+		funcs := strings.Join(g.layoutDef(d.name+" "+d.body(params), &cont), "\n") + "\n"
+		// (call text, inlined text) of a nest: position pos holds an inner call, to the given depth
+		var nest func(pos, depth int) (string, string)
+		leaf := func() string { return Pick(r, leaves) }
+		nest = func(pos, depth int) (string, string) {
+			args, inl := make([]string, d.arity), make([]string, d.arity)
+			for i := range args {
+				args[i] = leaf()
+				inl[i] = args[i]
+			}
+			if depth > 1 {
+				p := pos
+				if p < 0 { // every position
+					for i := range args {
+						args[i], inl[i] = nest(i, depth-1)
+					}
+				} else {
+					args[p], inl[p] = nest(p, depth-1)
+				}
+			}
+			return "{" + d.name + " " + strings.Join(args, " ") + "}", d.body(inl)
+		}
+		var calls, inls []string
+		for pos := 0; pos < d.arity; pos++ {
+			c, i := nest(pos, 2)
+			calls, inls = append(calls, c), append(inls, i)
+		}
+		c3, i3 := nest(d.arity-1, 3)
+		call, inl := nest(-1, 2)
+		calls, inls = append(calls, c3, call), append(inls, i3, call[:0]+inl)
+		e := &EqIn{Kind: "lib", Funcs: funcs, Call: strings.Join(calls, " ; "), Inlined: strings.Join(inls, " ; "), Conc: 4,
+			Ctxs: []Ctx{{M: []string{"a", "b", "c"}, K: map[string]string{}}, {M: []string{"1", "2", "3"}, K: map[string]string{}},
+				{M: []string{"0.1", "", "x y"}, K: map[string]string{}}, {M: []string{}, K: map[string]string{}}}}
+		cases = append(cases, mkEqCase(e, runEq(e), []string{"self-nested", "self-nested:" + d.name}))
+	}
+	return cases
+}
+
+// funcs-file definitions whose NAME is the name of a builtin, registered through funclib (the path of
+// main.go): the file's definition wins, for the template and for later definitions. Modelled cases
+// (call = inlined body = model), two with names of helpers that are not modelled (equality-only), and
+// one through the rare binary.
+func (g *gen) shadowCases() []Case {
+	r := g.r
+	w1, w2 := Pick(r, []string{"ab", "Foo", "x1"}), Pick(r, []string{"Cd", "bar", "Zz9"})
+	n1, n2 := fmt.Sprint(r.Range(2, 9)), fmt.Sprint(r.Range(2, 9))
+	type sc struct{ funcs, tmpl, inl string }
+	list := []sc{
+		{"upper <{0}>\nshout {upper {0}}!\n", "{upper " + w1 + "} {shout {0}} {lower {upper " + w2 + "}}", "<" + w1 + "> {upper {0}}! {lower <" + w2 + ">}"},
+		{"sumi {multi {0} {1}}\ntwice {sumi {0} 2}\n", "{sumi " + n1 + " " + n2 + "} {twice {1}} {subi {sumi 2 " + n2 + "} 1}", "{multi " + n1 + " " + n2 + "} {sumi {1} 2} {subi {multi 2 " + n2 + "} 1}"},
+		{"if {unless {0} {1}}\npick {if {0} yes}\n", "{if {0} " + w1 + "}|{pick {2}}|{if \"\" z}", "{unless {0} " + w1 + "}|{if {2} yes}|{unless \"\" z}"},
+		{"len [{0}]\nlower {upper {0}}\nboth {len {lower {0}}}\n", "{len " + w1 + "}{lower " + w2 + "}{both {0}}", "[" + w1 + "]{upper " + w2 + "}{len {lower {0}}}"},
+		{"eq {neq {0} {1}}\ntab {0}+{1}\ncoalesce {1}\n", "{eq a a}{eq {0} b} {tab " + w1 + " " + w2 + "} {coalesce " + w1 + " " + w2 + "}", "{neq a a}{neq {0} b} " + w1 + "+" + w2 + " " + w2},
+	}
+	var cases []Case
+	ctxs := []Ctx{{M: []string{"a", "4", ""}, K: map[string]string{}}, {M: []string{"", "x", "1"}, K: map[string]string{}}, {M: []string{}, K: map[string]string{}}}
+	for _, c := range list {
+		in := Input{Funcs: c.funcs, Tmpl: c.tmpl, Inl: c.inl, W: 3, Ctxs: ctxs}
+		cc := compileCase(in)
+		cases = append(cases, mkCase(in, cc.evalPlain(), true, []string{"funcs-file", "shadows-builtin"}))
+	}
+	for _, c := range []sc{
+		{"format F({0})\nhf h{0}\nshow {format {0}}/{hf {0}}\n", "{format " + w1 + "} {show {0}} {hf 1234.5}", "F(" + w1 + ") {format {0}}/{hf {0}} h1234.5"},
+		{"sumf {subf {0} {1}}\njson J{0}\nuse {sumf {0} 1}{json {1}}\n", "{sumf 5 2} {use {1} x}", "{subf 5 2} {sumf {1} 1}{json x}"},
+	} {
+		e := &EqIn{Kind: "lib", Funcs: c.funcs, Call: c.tmpl, Inlined: c.inl, Ctxs: ctxs}
+		cases = append(cases, mkEqCase(e, runEq(e), []string{"funcs-file", "shadows-builtin"}))
+	}
+	// the binary: the inlined template runs without --funcs, so it is inlined completely
+	e := &EqIn{Kind: "cli", Funcs: "upper <{0}>\nshout {upper {0}}!\n", Call: "{upper " + w1 + "} {shout {0}}", Inlined: "<" + w1 + "> <{0}>!", Data: []string{w2}}
+	cases = append(cases, mkEqCase(e, runEq(e), []string{"cli", "funcs-file", "shadows-builtin"}))
 	return cases
 }
 
@@ -1860,6 +1995,8 @@ func c10Gen(r *Rng, n int, tier string) []Case {
 	cases = append(cases, g.poolCases()...)
 	cases = append(cases, g.whitespaceCases()...)
 	cases = append(cases, g.operandOrderCases()...)
+	cases = append(cases, g.shadowCases()...)
+	cases = append(cases, g.selfNestedCases()...)
 	cases = append(cases, g.eqLibCases()...)
 	cases = append(cases, g.eqSeqCases()...)
 	cases = append(cases, g.eqMathCases()...)
@@ -1903,6 +2040,8 @@ func main() {
 			"12 operand-order cases (divi / modi with a zero divisor and a non-integer operand, the offending operand a constant, a capture, or a present / missing parameter of a funcs-file function; sumi / multi for comparison), modelled: call = inlined body, optimising = plain; " +
 			"9 functions-file cases with significant white space (runs of 2-3 blanks and tabs in literal text and inside quoted arguments, leading blanks after the name, blanks before a continuation backslash, a tab instead of the blank after the name), modelled: loader result, call and inlined body byte for byte; " +
 			"14 formula cases ({! ..}, one per operator * & && || + - / | % ^ == < >= <<): a constant operand written in the formula (0 1 2 0.5 (3-3) (0-1) (2*0) (1||0), on either side, bare or inside a larger formula) vs the same constant read from a group, for values of the variable among 5 -3 0 2.5 -0 empty missing text inf -inf nan 1e400, optimising and plain builder: all equal (compile-time folding must give the run-time value); " +
+			"7 self-nested cases (a funcs-file function called inside each of its own argument positions to depth 2, in its last position to depth 3, and in every position at once; bodies over format, tab, if, sumi, sumf, @map): call vs completely inlined body, optimising and plain builder, then 20 rounds from 4 goroutines; " +
+			"8 builtin-shadowing cases (funcs-file definitions named upper, sumi, if, len, lower, eq, tab, coalesce - modelled - and format, hf, sumf, json - equality-only - used directly and by a later definition, registered through funclib; one through the rare binary): the file's definition wins, call = inlined body; " +
 			"12 constant-loop cases (an @for that never reads the context, 9,999 / 10,001 / 20,000 / 65,537 / 250,000 rounds and two seeded sizes, condition on the value or on the round counter, reduced by @len and @select -1): the bound written in the template vs read from a named key, and inside funcs-file functions (constant loop next to a parameter, start value passed as a constant argument) vs the inlined body; optimising and plain builder, all equal; " +
 			"20 float-fold cases (sumf subf multf divf, 3-5 operands, constants first / last / interleaved / single / random, values among 0.1 0.2 0.3 0.7 1e16 -1e16 1 3 10 1e-17 1e308 0.5 -0.1 1e-320 where re-association changes the result): per operator one case of 15 pairs 'constant written in the template vs the same constant read from a group' and 4 cases of a funcs-file function over its parameters called with constant and mixed arguments vs the inlined body; optimising and plain builder, all equal; " +
 			"18 sequence cases (time / buckettime / timeformat / timeattr with explicit format and time-zone arguments, named formats, a constant prefix plus a capture, a named key, nested in sumi/timeformat, durations, floats/json/format; 3 with the auto-detected layout): three evaluation sequences per template on ONE compiled expression - the all-empty context (the optimiser's probe value) first, unparseable values, the same value on consecutive evaluations, a bad value first, a seeded shuffle - step by step: optimising = plain = a fresh plain compile = a fresh optimising compile of that step (for the auto-detected layout, which is remembered by design, only optimising = plain); " +
